@@ -48,6 +48,38 @@ def check(i: int, args: tuple) -> bool:
     return _VIS.visit(back) == text and gen.decode(t) == d
 
 
+def check_reuse(i: int, args: tuple, args2: tuple) -> bool:
+    """one visitor instance renders two trees of the same shape one after the other (the first one is dropped in
+    between, so its nodes' addresses can be re-used): each rendering equals the one of a fresh visitor - no memo keyed by
+    object identity, no state between calls."""
+    vis = AstToODataVisitor()
+    t1 = gen.build(SHAPES[i]["expr"], args)
+    s1 = vis.visit(t1)
+    ok1 = s1 == AstToODataVisitor().visit(t1)
+    del t1
+    t2 = gen.build(SHAPES[i]["expr"], args2)
+    s2 = vis.visit(t2)
+    return ok1 and s2 == AstToODataVisitor().visit(t2) and gen.decode(_parse(s2)) == gen.decode(t2)
+
+
+REUSE_TEXTS = ["a in (1, 2)", "a in (3, 4)", "b in ('x', 'y')", "b in ('p', 'q')", "concat((1, 2), (3, 4)) eq (1, 2, 3, 4)",
+               "concat((5, 6), (7, 8)) eq (5, 6, 7, 8)", "a in (1,)", "a in (2,)", "f eq 'it''s' and g in (1, 2)",
+               "f eq 'o''k' and g in (8, 9)", "x/any(i: i/k in (1, 2))", "x/any(i: i/k in (6, 7))"]
+
+
+def check_reuse_texts(a: int, b: int, c: int) -> bool:
+    """one visitor instance renders three parsed filters in a row (earlier trees are dropped, so object addresses are
+    re-used): every rendering equals the one of a fresh visitor and parses back to the same tree."""
+    vis = AstToODataVisitor()
+    for k in (a, b, c):
+        t = _parse(REUSE_TEXTS[k])
+        s = vis.visit(t)
+        if s != AstToODataVisitor().visit(t) or gen.decode(_parse(s)) != gen.decode(t):
+            return False
+        del t
+    return True
+
+
 # ---------------------------------------------------------------- leaf lemmas
 def in_string_lang(r: str) -> bool:
     """r in '([^']|'')*' - independent scanner."""
@@ -199,6 +231,19 @@ def main() -> int:
         argt = f"({', '.join(names)},)" if names else "()"
         items.append(Item(f"rt{i}", params, pre, f"check({i}, {argt})",
                           describe={k: sh[k] for k in ("skeleton", "top") if k in sh} or {"shape": sh["expr"]}, family=sh["family"]))
+    for i, sh in enumerate(SHAPES):
+        if not sh["holes"] or (quick and i % 3):
+            continue
+        params, pre, names = gen.signature(sh["holes"])
+        p2, pre2, n2 = gen.signature([(h[0], h[1] + len(sh["holes"])) + tuple(h[2:]) for h in sh["holes"]])
+        items.append(Item(f"reuse{i}", params + ", " + p2, f"({pre}) and ({pre2})",
+                          f"check_reuse({i}, ({', '.join(names)},), ({', '.join(n2)},))",
+                          describe={"shape": sh["expr"]}, family="visitor-instance-reuse"))
+    nrt = len(REUSE_TEXTS)
+    for a0 in range(0, nrt, 2):
+        items.append(Item(f"reuse_texts_{a0}", "a: int, b: int, c: int", f"{a0} <= a < {a0 + 2} and 0 <= b < {nrt} and 0 <= c < {nrt}",
+                          "check_reuse_texts(a, b, c)", describe="visitor instance reused over three parsed filters",
+                          family="visitor-instance-reuse"))
     items.append(Item("leaf_string_render", "s: str", "len(s) <= 3", "check_string_render(s)",
                       describe="render(String(s)) in STRING language and decodes to s", family="leaf-lemma"))
     items.append(Item("leaf_string_action", "r: str", "len(r) <= 6 and in_string_lang(r)", "check_string_action(r)",
@@ -213,7 +258,7 @@ def main() -> int:
                       "check_identifier(name, ns1, ns2, depth)", describe="identifier/namespace leaf lemma", family="leaf-lemma"))
     for sh in SHAPES[:3]:
         run.sample(sh["expr"])
-    header = ("from verif.props.c13 import check, check_string_render, check_string_action, check_geography_render, "
+    header = ("from verif.props.c13 import check, check_reuse, check_reuse_texts, check_string_render, check_string_action, check_geography_render, "
               "check_geography_action, check_identifier, in_string_lang\n")
     run_items(run, header, items, per_condition_timeout=120 if quick else 600,
               progress=bool(os.environ.get("VERIF_PROGRESS")))
